@@ -260,6 +260,15 @@ def r4(repo, res):
         hits = [m for m in members if Evaluator({var: m, "self.gene.name": "G"}).ev(test)]
         other = [m for m in members if Evaluator({var: m, "self.gene.name": "H"}).ev(test)] if gene_specific else []
         ok = len(hits) == 1 and not other
+        if gene_specific:
+            # an archive of several genes, one name being a prefix of another (CYP3A4 / CYP3A43)
+            dump_members = [m for m in members if m.endswith(".dump")]
+            multi = dump_members + [m.replace(".G.", ".G3.") for m in dump_members] + [m.replace(".G.", ".XG.") for m in dump_members]
+            for gname in ("G", "G3", "XG"):
+                hs = [m for m in multi if Evaluator({var: m, "self.gene.name": gname}).ev(test)]
+                if hs != [m.replace(".G.", f".{gname}.") for m in dump_members]:
+                    ok = False
+                    other = other + [f"gene {gname} matches {hs}"]
         res.ob("C17.R4", f, test, ok,
                expected=f"exactly one written member matches the reader's {label} test (and none for another gene)",
                found=f"written {members}; matches {hits}; matches for other gene {other}",
@@ -299,7 +308,57 @@ def r4(repo, res):
            found="ok" if ok else "missing", clause="with the same parameters", key="params-reapplied")
 
 
+def r5(repo, res):
+    """The replay goes through the same parameter/alias handling as the original run, and the restored neutral-depth
+    table supports the consumer's access pattern."""
+    g = repo.func("genotype::genotype")
+    cg = cfg_of(g)
+    stage = find_calls(g, "estimate_cn")
+    st = [n for n in walk_local(g) if isinstance(n, ast.Assign) and ast.unparse(n.targets[0]).endswith(".do_copy_number")
+          and isinstance(n.value, ast.Constant) and n.value.value is False]
+    mc = [n for n in walk_local(g) if isinstance(n, ast.Assign) and ast.unparse(n.targets[0]).replace('"', "'") == "params['min_coverage']"]
+    up = [x for x in find_calls(g, "update") if x.args and ast.unparse(x.args[0]) == (g.args.kwarg.arg if g.args.kwarg else "params")]
+    for prof in ("exome", "wxs", "wes"):
+        removed = cg.prune(decide_with({"kind": "dump", "profile_name": prof, "cn_solution": None}))
+        ok = bool(st) and bool(stage) and cg.is_reachable(cg.node_of(st[0]), removed) and cg.dominates(cg.node_of(st[0]), cg.node_of(stage[0]), removed)
+        ok2 = bool(mc) and bool(up) and cg.is_reachable(cg.node_of(mc[0]), removed) and any(
+            cg.dominates(cg.node_of(mc[0]), cg.node_of(u), removed) for u in up if cg.is_reachable(cg.node_of(u), removed))
+        res.ob("C17.R5", g, st[0] if st else g, ok and ok2,
+               expected=f"replaying an archive with profile {prof!r} applies the same alias handling as the original run "
+                        "(copy-number calling off, min_coverage preset) before the parameters are re-applied and the first stage runs",
+               found=f"copy-number switch applied: {ok}; min_coverage preset before the re-application: {ok2}",
+               clause="as genotyping the original alignment file with the same parameters", key=f"alias-on-replay:{prof}")
+    # neutral-depth table: writer -> reader -> consumer
+    wf, wc, w = writer_tuple(repo)
+    rf, rn, r = reader_tuple(repo)
+    nf = repo.func("coverage::Coverage._normalize_coverage")
+    idx = [i for i, e in enumerate(w) if root(e) == "_dump_cn"]
+    cons = [n for n in walk_local(nf) if isinstance(n, ast.Assign) and "_cnv_coverage" in ast.unparse(n.value)
+            and isinstance(n.value, ast.Call) and call_name(n.value) == "sum"]
+    if not idx or not cons:
+        res.err("C17.R5", "neutral-depth component or its consumer not found")
+        return
+    try:
+        table = collections.defaultdict(int, {100: 4, 101: 5, 103: 2})  # position 102 has no read
+        stored = Evaluator({"self._dump_cn": table, "self": Obj(_dump_cn=table)}, funcs={"Counter": collections.Counter}).ev(w[idx[0]])
+        import pickle
+
+        restored = pickle.loads(pickle.dumps(stored))
+        me = Obj(_cnv_coverage=restored, profile=Obj(cn_region=Obj(start=100, end=105)))
+        v = Evaluator({"self": me}).ev(cons[0].value)
+        ok, found = (v == 11), f"neutral depth over a region with an uncovered position: {v}"
+    except Raised as e:
+        ok, found = False, f"consumer raises {e.kind} on a restored table with an uncovered position"
+    except Unfoldable as e:
+        res.err("C17.R5", f"neutral table round trip outside folding language: {e}")
+        return
+    res.ob("C17.R5", wf, w[idx[0]], ok,
+           expected="the restored neutral-depth table answers every position of the neutral region (uncovered positions read as 0)",
+           found=found, clause="the same ... gene structures ... as genotyping the original alignment file", key="neutral-table-roundtrip")
+
+
 def run(repo, res):
+    r5(repo, res)
     r1(repo, res)
     r2(repo, res)
     r3(repo, res)
@@ -337,6 +396,12 @@ MUTANTS = [
          old='    if kind == "dump":\n        profile.update(params)', new='    if kind == "dump":\n        pass'),
     dict(name="R4 dump also written when replaying a dump", module="sam", expect="C17.R4",
          old='            if self.kind == "sam" and debug:', new='            if debug:'),
+    dict(name="R4 member matched by substring (seeded C17_2 shape)", module="sam", expect="C17.R4",
+         old='if i.endswith(f".{self.gene.name}.dump")]', new='if i.endswith(".dump") and f".{self.gene.name}" in i]'),
+    dict(name="R5 alias handling skipped for archives (seeded C17_1 shape)", module="genotype", expect=["C17.R5"],
+         old='    if profile_name in ["exome", "wxs", "wes"]:', new='    if kind != "dump" and profile_name in ["exome", "wxs", "wes"]:'),
+    dict(name="R5 neutral table pickled as a plain dict (seeded C17_3 shape)", module="sam", expect="C17.R5",
+         old="                    self._dump_cn,\n                    {p: Counter(q) for p, q in norm.items()},", new="                    dict(self._dump_cn),\n                    {p: Counter(q) for p, q in norm.items()},"),
     # benign
     dict(name="benign: Counter via collections", module="sam", kind="benign", count=2,
          old="Counter(q)", new="Counter(list(q))"),
